@@ -235,10 +235,26 @@ func (o *observations) forget(k obsKey) {
 
 // ---- the production call sequences ----
 
+// lend hands a name to lindb the way the write path does: as bytes of a buffer the caller owns and reuses. The
+// returned function overwrites the buffer once the call has returned (row blocks and batches are recycled in
+// production), so a dictionary that kept the caller's bytes instead of its own copy changes its names under the ids.
+func lend(name string) (buf []byte, reuse func()) {
+	buf = []byte(name)
+	return buf, func() {
+		for i := range buf {
+			buf[i] = '#'
+		}
+	}
+}
+
 // metaWorkerRow is what memdb.metadataDatabase.handleRow does for one row.
 func metaWorkerRow(o *observations, g int, d *dbset, r rowSpec) {
 	call := o.tick()
-	mid, err := d.meta.GenMetricID([]byte(r.NS), []byte(r.Metric))
+	nsBuf, reuseNS := lend(r.NS)
+	nameBuf, reuseName := lend(r.Metric)
+	mid, err := d.meta.GenMetricID(nsBuf, nameBuf)
+	reuseNS()
+	reuseName()
 	ret := o.tick()
 	if err != nil {
 		o.fail("C09/gen-fails", "GenMetricID(%s,%s): %v", r.NS, r.Metric, err)
@@ -282,6 +298,10 @@ func indexWorkerRow(o *observations, g int, d *dbset, s int, r rowSpec) {
 		return
 	}
 	o.observe(g, "series", fmt.Sprintf("shard=%d,metric=%d", s, mid), r.tagString(), sid, call, ret)
+	// the row block is recycled for the next batch
+	for i := range data {
+		data[i] = '#'
+	}
 	tagIDs(o, g, d, mid, r)
 }
 
@@ -289,7 +309,9 @@ func indexWorkerRow(o *observations, g int, d *dbset, s int, r rowSpec) {
 func tagIDs(o *observations, g int, d *dbset, mid metric.ID, r rowSpec) {
 	for _, kv := range r.Tags {
 		call := o.tick()
-		kid, err := d.meta.GenTagKeyID(mid, []byte(kv[0]))
+		keyBuf, reuseKey := lend(kv[0])
+		kid, err := d.meta.GenTagKeyID(mid, keyBuf)
+		reuseKey()
 		ret := o.tick()
 		if err != nil {
 			o.fail("C09/gen-fails", "GenTagKeyID(%d,%s): %v", mid, kv[0], err)
@@ -297,7 +319,9 @@ func tagIDs(o *observations, g int, d *dbset, mid metric.ID, r rowSpec) {
 		}
 		o.observe(g, "tagkey", fmt.Sprintf("metric=%d", mid), kv[0], uint32(kid), call, ret)
 		call = o.tick()
-		vid, err := d.meta.GenTagValueID(kid, []byte(kv[1]))
+		valBuf, reuseVal := lend(kv[1])
+		vid, err := d.meta.GenTagValueID(kid, valBuf)
+		reuseVal()
 		ret = o.tick()
 		if err != nil {
 			o.fail("C09/gen-fails", "GenTagValueID(%d,%s): %v", kid, kv[1], err)
